@@ -36,6 +36,7 @@ type G struct {
 	prio   int
 	abort  bool
 	Daemon bool // harness helper; ignored by leak accounting
+	run    int  // fair phase: plain yields since this goroutine was last parked
 }
 
 func (g *G) String() string { return fmt.Sprintf("g%d(%s)", g.ID, g.Name) }
@@ -430,6 +431,7 @@ func (s *Sched) park(g *G, cond func() bool, idle bool, reason string) {
 	g.alt = false
 	g.reason = reason
 	g.state = stParked
+	g.run = 0
 	s.mu.Unlock()
 	<-g.wake
 	if g.abort {
@@ -458,6 +460,15 @@ func Yield() {
 		if s.steps-s.lastProg > s.cfg.SpinLimit {
 			s.spin = true
 			s.park(g, nil, false, "yield(spin)")
+			return
+		}
+		// Fair means that every runnable goroutine runs again within a bounded number of
+		// steps: a goroutine that loops without ever blocking (a poller whose wait keeps
+		// returning at once) must not starve the goroutine whose next step would end the loop.
+		g.run++
+		if g.run >= fairQuantum {
+			g.run = 0
+			s.park(g, nil, false, "yield(quantum)")
 		}
 		return
 	case s.cfg.Strategy == StratRandom:
@@ -594,7 +605,11 @@ func Unblock(g *G) {
 	}
 }
 
-// SetFair switches to the fair phase: round-robin, no pre-emption at plain yields,
+// fairQuantum is the number of plain yields a goroutine may pass in the fair phase before the
+// round robin moves on.
+const fairQuantum = 64
+
+// SetFair switches to the fair phase: round-robin with a quantum of fairQuantum plain yields,
 // time advances only when nothing is runnable.
 func SetFair(on bool) {
 	if S != nil {
